@@ -215,6 +215,10 @@ def run_check(modname, tier, seed):
     if total['states']:
         coverage['states'] = len(total['states'])
         coverage['transitions'] = len(total['transitions'])
+    if hasattr(mod, 'STATES_FROM_COUNTERS'):
+        a, b = mod.STATES_FROM_COUNTERS
+        coverage['states'] = total['counters'].get(a, 0)
+        coverage['transitions'] = total['counters'].get(b, 0)
     if hasattr(mod, 'extra_coverage'):
         coverage.update(mod.extra_coverage(tier))
     evidence = {
